@@ -15,7 +15,7 @@ THEOREMS = ["EngineModel.Properties.C14." + t for t in [
     "C14_crates_v2_program", "C14_crates_v2_shape", "C14_crates_v2_skeleton", "C14_crates_v2_all_or_nothing",
     "C14_tracks_v2_program", "C14_tracks_v2_shape", "C14_tracks_v2_skeleton", "C14_tracks_v2_all_or_nothing",
     "C14_set_bpm_unscoped_counterexample", "C14_remove_track_unscoped_counterexample",
-    "C14_tracks_v1_program", "C14_tracks_v1_shape", "C14_tracks_v1_all_or_nothing"]]
+    "C14_tracks_v1_program", "C14_tracks_v1_shape", "C14_tracks_v1_all_or_nothing", "C14_shapeOf_atomic"]]
 ASSUMPTIONS = [
     "SqliteSemantics (modelled, Spec/Txn.lean): a statement applies completely or not at all; BEGIN fails inside a "
     "transaction, COMMIT fails outside one; ROLLBACK restores the committed database; an error may or may not roll "
@@ -26,6 +26,9 @@ ASSUMPTIONS = [
     "faults are injected at statement granularity: the k-th non-read-only sqlite3_step of the call (BEGIN, COMMIT, "
     "INSERT/UPDATE/DELETE; ROLLBACK and read-only statements are never failed) returns SQLITE_IOERR once without "
     "executing; trigger programs run inside their statement and are covered by SQLite's statement atomicity",
+    "the statement programs of the concrete models correspond to the real calls at the level of the skeleton only "
+    "(scope / single autocommit write / no write), checked per observed call; the 1.x track programs and the "
+    "single-UPDATE 2.x setters are one write per call",
     "an operation's statement sequence depends only on (schema, prior state, arguments): the shape recorded in the "
     "fault-free run is the one faulted (checked: the faulted run's prefix must equal it)",
 ]
@@ -40,7 +43,14 @@ MANIFEST = dict(
          "shape, and injecting SQLITE_IOERR at every position: the call must throw, the full observation (every "
          "getter of every crate and track + raw dump of every table) must equal the one before, the connection must "
          "be in autocommit state, a retry must succeed with the fault-free result; Lean's verdict and the observed "
-         "verdict must agree.",
+         "verdict must agree. Concrete operations: C14_{crates_v1,crates_v2,tracks_v2,tracks_v1}_program / _shape / "
+         "_all_or_nothing give, for the concrete API models (1.x crates incl. the update_path recursion and every loop, "
+         "2.x crates / memberships, the statement-level 2.x Track table, 1.x tracks at call granularity), the statement "
+         "program of every public mutating call, prove that it composes to the model's step, that its shape is atomic on "
+         "every prior state, and that a fault at ANY statement position raises and leaves the tables as before "
+         "(C14_fault_is_reported: k < countFaultable => raised); C14_set_bpm_unscoped_counterexample / "
+         "C14_remove_track_unscoped_counterexample are the formerly unwrapped calls. The skeleton (reads dropped, writes "
+         "of a scope counted once; C14_skeleton_decides) of every observed call must be one its model operation can have.",
     note="Trusted/limits: SQLite's statement atomicity and rollback are assumed (SqliteSemantics); faults are "
          "injected at statement granularity only (sqlite3_step wrapper), not inside a statement or in the OS layer; "
          "the enumeration of operations x prior states x schema versions is dense sampling, the for-all over fault "
@@ -56,7 +66,10 @@ SELF_TEST = {"recorded": "2026-09-29, scratch worktree of /repo, quick tier seed
     "seeded/sv-C14-drop-scope-v2-bpm": "caught: corpus witness v2_set_bpm + sweep",
     "seeded/sv-C14-drop-scope-v1-path (commit before the last statement)": "caught: track.set_relative_path k=4 partial update",
     "seeded/sv-C14-no-rollback-on-unwind": "caught: transaction left open, retry fails",
-    "seeded/sv-refactor-reorder-writes, seeded/sv-refactor-getter-in-scope (behaviour preserving)": "green"}}
+    "seeded/sv-refactor-reorder-writes, seeded/sv-refactor-getter-in-scope (behaviour preserving)": "green",
+    "seeded/sv2-C14-set-name-early-commit (1.x set_name commits before update_path of the children)": "missed until the instance crate.set_name(with sub-crates) existed, caught since: k=3 partial update, skeleton begin,write,commit,write",
+    "seeded/sv2-C14-add-back-no-scope (2.x add_back without its scope)": "caught: crate.add_track k=1 partial update",
+    "seeded/sv2-refactor-extra-select (behaviour preserving)": "green"}}
 
 
 # ------------------------------------------------------------------ the operations under test
